@@ -173,7 +173,7 @@ def monitor_tables(res, pipe, summary, classes=('ObjectQueue', 'UncompressedFile
                         'lock kind %s -> %s' % (a['lock'], b['lock']) if a['lock'] != b['lock'] else ''] if x)
             res.oblige('T:monitor:%s::%s' % (cls, m), ok, why)
     ths = ['Blf.MonitorTie.queue_notifies', 'Blf.MonitorTie.queue_waits', 'Blf.MonitorTie.ufile_notifies', 'Blf.MonitorTie.ufile_waits',
-           'Blf.MonitorTie.queue_read_guard', 'Blf.MonitorTie.queue_write_guard', 'Blf.MonitorTie.ufile_read_guard',
+           'Blf.MonitorTie.queue_read_guard', 'Blf.MonitorTie.queue_write_guard', 'Blf.MonitorTie.queue_read_guard32', 'Blf.MonitorTie.queue_write_guard32', 'Blf.MonitorTie.ufile_read_guard',
            'Blf.MonitorTie.ufile_write_guard', 'Blf.MonitorTie.ufile_writeCont_guard']
     pipe.lean(['Blf.MonitorTie'], {'Blf.MonitorTie': ths})
 
